@@ -70,8 +70,17 @@ class BeartypeValidatorUnaryABC(BeartypeValidator, metaclass=ABCMeta):
 
         # Callable accepting no arguments returning a machine-readable
         # representation of this binary validator.
+        # Avoid circular import dependencies.
+        from beartype.vale._core._valecorebinary import represent_operand
+
+        #
+        # Note that the representation of a compound (i.e., binary) operand is
+        # parenthesized. Omitting these parentheses would render the
+        # representations of semantically distinct validators identical (e.g.,
+        # "~(A & B)" and "(~A) & B" as "~A & B"), which beartype itself relies
+        # upon being distinct when de-duplicating hints by representation.
         get_repr = lambda: (
-            f'{self._operator_symbol}{repr(validator_operand)}')
+            f'{self._operator_symbol}{represent_operand(validator_operand)}')
 
         # Initialize our superclass with all remaining parameters.
         super().__init__(
